@@ -28,6 +28,9 @@ Section Run.
   Fixpoint write_all (l : list (fnameT * content)) (o : fnameT -> option content) :=
     match l with [] => o | (f, x) :: l' => write_all l' (upd o f (Some x)) end.
 
+  Definition unwrite (fx : option (fnameT * content)) (o : fnameT -> option content) : fnameT -> option content :=
+    match fx with Some (f, _) => upd o f None | None => o end.
+
   Definition present (o : fnameT -> option content) (l : list (fnameT * content)) : bool :=
     forallb (fun p => match o (fst p) with Some _ => true | None => false end) l.
 
@@ -53,8 +56,11 @@ Section Run.
       match fault with
       | Some k =>
           if k <? length plan then
+            (* the file whose write failed is not left behind (FileWriter::write_or_remove: a truncated file would
+               pass for a generated one); a directory standing in its place is not a file either *)
             (Failure, {| s_src := s_src st; s_cfg := s_cfg st;
-                         s_out := write_all (firstn k plan) (s_out st); s_cache := s_cache st |})
+                         s_out := unwrite (nth_error plan k) (write_all (firstn k plan) (s_out st));
+                         s_cache := s_cache st |})
           else (* the record cannot be written: warning only; whatever was there is not a readable record *)
             (Success, {| s_src := s_src st; s_cfg := s_cfg st;
                          s_out := write_all plan (s_out st); s_cache := None |})
